@@ -222,6 +222,19 @@ func TestC07(t *testing.T) {
 	// ---- crash probe: each FS method in a child process, on both views -------------------------------
 	skip := crashProbe(rep, total, st)
 
+	if skip.fatal {
+		for _, s := range total.signatures() {
+			rep.ViolationN(s.Sig, s.First, s.Count)
+		}
+		rep.Coverage["evaluations"] = len(total.eval)
+		rep.Coverage["distinct_nontrivial"] = 2
+		rep.Coverage["rule"] = "probe only: reading the views of the 4-entry probe tree killed the child process, the enumeration was not started"
+		rep.Coverage["exhaustive"] = false
+		rep.Coverage["samples"] = []any{sampleOf(&Case{Space: "probe", Backend: "mem", Limits: "none", Tree: probeTree})}
+		rep.Finish()
+		return
+	}
+
 	// ---- enumeration ------------------------------------------------------------------------------------
 	workers := ev.Workers()
 	ch := make(chan *Case, 4*workers)
@@ -394,8 +407,9 @@ func replay(t *testing.T, path string) {
 // ---- crash probe -------------------------------------------------------------------------------------------
 
 type skipSet struct {
-	mu sync.Mutex
-	m  map[string]bool // "view:phase:method"
+	mu    sync.Mutex
+	m     map[string]bool // "view:phase:method"
+	fatal bool            // the probe case killed its process: the enumeration cannot run in-process
 }
 
 func (s *skipSet) has(view, phase, method string) bool {
@@ -440,7 +454,7 @@ func crashProbe(rep *ev.Reporter, rec *recorder, st *stats) *skipSet {
 		go func(i int, j job) {
 			defer wg.Done()
 			defer func() { <-sem }()
-			cmd := exec.Command(os.Args[0], "-test.run=^TestC07$", "-test.count=1", "-test.timeout=60s")
+			cmd := exec.Command(os.Args[0], "-test.run=^TestC07$", "-test.count=1", "-test.timeout=300s")
 			cmd.Env = append(os.Environ(), "VERIF_C07_PROBE="+j.view+":"+j.method, "GOMAXPROCS=2")
 			out, _ := cmd.CombinedOutput()
 			s := string(out)
@@ -458,7 +472,11 @@ func crashProbe(rep *ev.Reporter, rec *recorder, st *stats) *skipSet {
 			skip.m[r.view+":live:"+r.method] = true
 			skip.m[r.view+":closed:"+r.method] = true // the closed phase was never reached
 			if isMutating(r.method) {
-				rec.check(c, liveFam, d, false, r.method, "(view)", descr)
+				detail := r.method
+				if strings.Contains(r.out, "test timed out") {
+					detail += "/never-returns" // 300 s for a call that takes microseconds
+				}
+				rec.check(c, liveFam, d, false, detail, "(view)", descr)
 			} else {
 				rec.check(c, liveFam, d, true, "", "", nil)
 				st.accessorPanics[r.view+":"+r.method+":kills-process"]++
@@ -474,6 +492,29 @@ func crashProbe(rep *ev.Reporter, rec *recorder, st *stats) *skipSet {
 		rec.check(c, closedFam, d, true, "", "", nil)
 		if strings.Contains(r.out, "PROBE-ENGINE-ERROR") && rep != nil {
 			rep.EngineError("probe %s:%s: %s", r.view, r.method, firstLines(r.out, 4))
+		}
+	}
+	// the whole case once in a child process per backend: a view whose accessors take the process down (a fatal
+	// error cannot be recovered) is reported as a violation instead of aborting the enumeration
+	for _, b := range backendNames {
+		cmd := exec.Command(os.Args[0], "-test.run=^TestC07$", "-test.count=1", "-test.timeout=600s")
+		cmd.Env = append(os.Environ(), "VERIF_C07_PROBE=case:"+b, "VERIF_C07_PROBE_SKIP="+strings.Join(skip.list(), ","))
+		out, _ := cmd.CombinedOutput()
+		s := string(out)
+		ok := strings.Contains(s, "PROBE-CASE-DONE")
+		how := "other"
+		switch {
+		case strings.Contains(s, "stack overflow"):
+			how = "stack-overflow"
+		case strings.Contains(s, "panic:"):
+			how = "panic"
+		case strings.Contains(s, "fatal error:"):
+			how = "fatal-error"
+		}
+		pc := &Case{Space: "probe", Index: 1, Backend: b, Limits: "none", Deep: true, Tree: probeTree}
+		rec.check(pc, "probe:reading-the-views-kills-the-process", dims{b, "-", "-", "-", "-"}, ok, how, "(view)", func() string { return firstLines(s, 8) })
+		if !ok {
+			skip.fatal = true
 		}
 	}
 	return skip
@@ -497,6 +538,26 @@ func firstLines(s string, n int) string {
 func runProbeChild(spec string) {
 	parts := strings.SplitN(spec, ":", 2)
 	view, method := parts[0], parts[1]
+	if view == "case" {
+		// the whole case (oracle reads and sweeps) on the probe tree
+		var err error
+		sandboxRoot, err = os.MkdirTemp("/dev/shm", "verif-c07-")
+		if err != nil {
+			fmt.Println("PROBE-ENGINE-ERROR", err)
+			return
+		}
+		defer os.RemoveAll(sandboxRoot)
+		skip := &skipSet{m: map[string]bool{}}
+		for _, m := range strings.Split(os.Getenv("VERIF_C07_PROBE_SKIP"), ",") {
+			skip.m[m] = true
+		}
+		run := &runner{rec: newRecorder(), st: newStats(), skip: skip, sandbox: filepath.Join(sandboxRoot, "probe")}
+		for _, l := range limitNames {
+			run.runCase(&Case{Space: "probe", Backend: method, Limits: l, Deep: true, Tree: probeTree})
+		}
+		fmt.Println("PROBE-CASE-DONE")
+		return
+	}
 	var m *reflect.Method
 	for _, x := range fsMethods() {
 		if x.Name == method {
